@@ -471,3 +471,21 @@ func verifHarness_C08_framing_metadata_not_guessed() {
 	verifAssertD(rec.completed == 0, "nothing-completed-from-malformed-framing", name)
 	verifAssert(false, "witness")
 }
+
+// nothing further after an error, even when the caller keeps feeding the
+// parser instead of closing it (the blocking-mode reader does): a request whose
+// head ends in CR + junk, then the bytes that would have completed it.
+func verifHarness_C08_nothing_after_error_without_close() {
+	e := verifHTTPEngine()
+	rec := &verifRecorder{}
+	p := NewParser(&verifNetConn{failAt: -1}, e, rec, false, nil)
+	junk := verifByte("junk")
+	verifAssume(junk != '\n')
+	err := p.Parse(append([]byte("GET / HTTP/1.1\r\nHost: a\r\n\r"), junk))
+	verifAssertD(err != nil, "malformed-framing-metadata-rejected", "cr-without-lf")
+	n, completed := len(rec.log), rec.completed
+	more := [][]byte{[]byte("\n"), []byte("\r\n\r\n"), []byte("GET /x HTTP/1.1\r\nHost: b\r\n\r\n")}[verifChoose("then", 3)]
+	_ = p.Parse(more)
+	verifAssertD(len(rec.log) == n && rec.completed == completed, "nothing-reported-after-error", "caller-did-not-close")
+	verifAssert(false, "witness")
+}
